@@ -202,6 +202,8 @@ def _case(draw, maxdepth):
     # site is not)
     retvar = [k for k in ("Evt.val", "Jet.val", "Trk.val") if draw(st.integers(0, 5)) == 0]
     return {"model": model, "stages": stages, "alias": draw(st.sampled_from(ALIASES)), "kinds": {k: v for k, v in kinds.items() if v != "plain"}, "retvar": retvar,
+            # signatures that end in *rest and / or **opts (nothing is required for them; the call sites do not use them)
+            "varargs": {k: v for k, v in ((k, draw(st.sampled_from([None] * 6 + ["rest", "opts", "both"]))) for k in sorted(model)) if v},
             # history of the stream: metadata calls before / between the operators (incl. ones that record nothing new)
             "meta": draw(st.lists(st.sampled_from([None, None, None, "q-empty", "q-once", "q-repeat", "m"]), min_size=2, max_size=2))}
 
@@ -261,8 +263,9 @@ def exhaustive(tier):
 ALIASES = ["val", "val", "value", "Select", "Where", "MetaData", "SelectMany", "item_type", "First", "Count", "query_ast"]
 
 
-def build_model(model, alias="val", kinds=None, retvar=()):
+def build_model(model, alias="val", kinds=None, retvar=(), varargs=None):
     kinds = kinds or {}
+    varargs = varargs or {}
     from typing import TypeVar
 
     ns = {"Iterable": Iterable, "_alias": alias, "U_": TypeVar("U_")}
@@ -285,6 +288,11 @@ def build_model(model, alias="val", kinds=None, retvar=()):
                 out.append(f"{name}: float")
             if _kind(p) == "po" and (i + 1 == len(sig) or _kind(sig[i + 1]) != "po"):
                 out.append("/")
+        va = varargs.get(key.replace("_", ".", 1) if key != "fn" else key)
+        if va in ("rest", "both") and not any(_kind(q) == "kw" for q in sig):
+            out.append("*rest: float")
+        if va in ("opts", "both"):
+            out.append("**opts: float")
         return ", ".join(out)
 
     for cls in ("Trk", "Jet", "Evt"):
@@ -351,6 +359,8 @@ def render(ir, ns, mode, consts):
         ba.apply_defaults()
         out = []
         for p in params:
+            if p.kind in (p.VAR_POSITIONAL, p.VAR_KEYWORD):
+                continue  # *rest / **opts: the call sites hand nothing to them, so they add nothing to the positional form
             v = ba.arguments[p.name]
             if isinstance(v, tuple) and len(v) == 2 and v[0] == "P":
                 out.append(R(v[1]))
@@ -414,7 +424,7 @@ def _depth_of_sites(ir, d=0):
 def check(case) -> Result:
     from func_adl import EventDataset, func_adl_callable
 
-    ns = build_model(case["model"], case.get("alias", "val"), case.get("kinds"), case.get("retvar", ()))
+    ns = build_model(case["model"], case.get("alias", "val"), case.get("kinds"), case.get("retvar", ()), case.get("varargs"))
     func_adl_callable()(ns["fn"])
     func_adl_callable()(ns["mk"])
     func_adl_callable()(ns["fself"])
@@ -461,6 +471,8 @@ def check(case) -> Result:
         r.labels.append("missing-required")
     if case.get("alias", "val") != "val":
         r.labels.append("method-named-like-a-stream-member")
+    if case.get("varargs"):
+        r.labels.append("signature-with-*rest/**opts")
     for kd in sorted(set((case.get("kinds") or {}).values())):
         r.labels.append(f"{kd.replace(':', '-')}-method-in-model")
     r.nontrivial = nontriv
